@@ -18,12 +18,22 @@ PROP = {'rule': 'rapid-generated cases. history: rapid state machine over one no
          'RestoreReservation/Filter/FilterNominateReservation/Reserve as owners of a generated subset of the reservations (first matched '
          'reservation that passes is nominated), requests aimed at reserved, reserved+free(+1); informer pods, pod/reservation deletes, '
          'refresh; non-trivial = an owner holds more on a reserved device than was reserved, or an owner was served in a history of >=6 '
-         'events. All informer deletes are delivered either as the object or as a cache.DeletedFinalStateUnknown value. '
+         'events. ratioFill: per GPU a generated composition of 100 % into 1-20 gpu-memory-ratio shares (koordinator.sh/gpu, core+ratio, '
+         'ratio alone) on memory sizes where ratio*total/100 is mostly not integral, then shares released and asked again; every share some '
+         'device has free must be served; non-trivial = a GPU filled to exactly 100 % with non-integral share bytes and >=3 served. '
+         'jointAllocate: GPU+RDMA joint allocation (annotation) on 1-3 PCIe switches with 0-2 GPUs and 0-4 NICs each, used/full/unhealthy '
+         'devices; non-trivial = a preferred switch hosts more NICs than there are preferred switches, or usage with at most one fitting '
+         'NIC to spare. All informer deletes are delivered either as the object or as a cache.DeletedFinalStateUnknown value. '
          'distinct = FNV-64 fingerprint of the full history / triple.',
  'assumptions': ['GPU devices report gpu-core=100, gpu-memory-ratio=100 and gpu-memory (2^30..2^36 bytes) together, or nothing (zero/unhealthy); '
                  'RDMA/FPGA report their single resource',
                  'requests are PreFilter-valid (ValidateDeviceRequest) and carry no device hints, joint-allocation, selectors, VF requests, '
-                 'GPU partition tables or required topology scope; no reservations / preemption',
+                 'GPU partition tables or required topology scope (joint allocation of [gpu, rdma] is generated in the jointAllocate unit: '
+                 'without a required scope the GPU switches are only preferred for the NICs, so completeness is asserted over all NICs; with '
+                 'requiredScope=SamePCIe only validity is asserted; a joint allocation may hand out up to one NIC per switch of the GPUs)',
+                 'completeness counts a GPU as able to serve a request on the asked memory view alone when every live holder of its memory '
+                 'asked in the same view against the present memory size (the truncating conversions then guarantee the other view fits); '
+                 'only on a device held in mixed views (or resized under its holders) the other view must fit too, rounded up',
                  'a GPU memory request is charged in both views (bytes and ratio) at commit although only the requested view is compared by '
                  'the allocator; completeness (refusal => not enough devices) therefore counts a GPU as able to serve a request only if the '
                  'unrequested view fits too (rounded up), validity (success => free >= request) uses the requested view only',
@@ -42,11 +52,13 @@ PROP = {'rule': 'rapid-generated cases. history: rapid state machine over one no
                  'was asked for beyond the total'],
  'units': [{'name': 'deviceshare',
             'pkg': 'pkg/scheduler/plugins/deviceshare',
-            'files': ['C07/c07_device_test.go', 'C07/c07_plugin_test.go', 'C07/c07_reservation_test.go'],
+            'files': ['C07/c07_device_test.go', 'C07/c07_plugin_test.go', 'C07/c07_reservation_test.go', 'C07/c07_complete_test.go'],
             'tests': [{'run': 'TestVerifC07History', 'quick': 2000, 'thorough': 8000, 'steps': 30},
                       {'run': 'TestVerifC07Allocate', 'quick': 8000, 'thorough': 50000},
                       {'run': 'TestVerifC07PluginHistory', 'quick': 2000, 'thorough': 8000, 'steps': 20},
-                      {'run': 'TestVerifC07ReservationHistory', 'quick': 2000, 'thorough': 8000, 'steps': 22}]}],
+                      {'run': 'TestVerifC07ReservationHistory', 'quick': 2000, 'thorough': 8000, 'steps': 22},
+                      {'run': 'TestVerifC07RatioFill', 'quick': 2000, 'thorough': 10000},
+                      {'run': 'TestVerifC07JointAllocate', 'quick': 6000, 'thorough': 40000}]}],
  'manifest': {'technique': 'property-based testing (rapid): model-based state machine over the device cache with a ledger oracle after every '
                            'step, plus generated (inventory, usage, request) triples with a validity + completeness oracle for single allocations',
               'text': 'Generated-history search: allocate (real AutopilotAllocator/GPUAllocator, both the direct and the nodeDevice.filter path) + '
